@@ -126,6 +126,12 @@ def check_tree(label, name, est, s, X, y, Kmat, qseed, subsets):
             raise Violation(f"{label} [{name}]: point {q.tolist()} is not in exactly one leaf region")
         if gq != want:
             raise Violation(f"{label} [{name}]: predict gives {gq} for {q.tolist()}, the leaf region containing it is labelled {want}")
+    Qi = np.round(Q[np.all(np.abs(Q) < 1e9, axis=1)]).astype(np.int64)
+    if len(Qi):
+        for q, gq in zip(Qi, est.predict(Qi)):
+            want = region_label(t, regions, q.astype(float))
+            if gq != want:
+                raise Violation(f"{label} [{name}]: predict gives {gq} for the integer-typed point {q.tolist()}, the leaf region containing it is labelled {want}")
     sc = est.score(X, y)
     ref = KR.J(pred, Kmat)
     if abs(sc - ref) > 1e-9 * max(1.0, abs(ref), n * float(np.max(np.abs(Kmat)))):
